@@ -3,8 +3,8 @@
 cd /verif
 for id in "$@"; do
   prop=${id%%-*}
-  if ! git -C /repo apply --check /verif/seeded/$id/patch.diff 2>/dev/null; then echo "$id: patch does not apply to the current tree"; continue; fi
-  git -C /repo apply /verif/seeded/$id/patch.diff
+  if ! git -C /repo apply --check $( [ -f /verif/seeded/$id/patch_rebased.diff ] && echo /verif/seeded/$id/patch_rebased.diff || echo /verif/seeded/$id/patch.diff ) 2>/dev/null; then echo "$id: patch does not apply to the current tree"; continue; fi
+  git -C /repo apply $( [ -f /verif/seeded/$id/patch_rebased.diff ] && echo /verif/seeded/$id/patch_rebased.diff || echo /verif/seeded/$id/patch.diff )
   out=$(python3 checks/run.py $prop 2>&1); rc=$?
   git -C /repo checkout -- .
   echo "$id: rc=$rc $(echo "$out" | grep -E ': RF[0-9a-z]+:' | sed -E 's/.*: (RF[0-9a-z]+):.*/\1/' | sort | uniq -c | tr '\n' ' ') $(echo "$out" | grep -c ANALYSIS-BROKEN) broken"
